@@ -18,15 +18,15 @@ ASSUMPTIONS = ['joined != union with a valid union is classified from the parts\
                'join-first-segments-only; when the two parts overlap on the reference or query axis and every missing pair '
                'lies inside the overlapping stretch it is the listed finding join-overlap-resolved-by-trimming',
                'XmapEntryID is excluded from comparisons (running count)']
-MINIMUMS = {'inputs': {'quick': 100, 'thorough': 1500}, 'joined-records': {'quick': 100, 'thorough': 1500},
-            'second-pass-records': {'quick': 400, 'thorough': 6000}, 'union-valid-joins': {'quick': 50, 'thorough': 800},
+MINIMUMS = {'inputs': {'quick': 70, 'thorough': 1500}, 'joined-records': {'quick': 60, 'thorough': 1500},
+            'second-pass-records': {'quick': 300, 'thorough': 6000}, 'union-valid-joins': {'quick': 30, 'thorough': 800},
             'join-candidates-rejected-by-gap': {'quick': 10, 'thorough': 150}}
 KF = 'join-first-segments-only'
 KF2 = 'join-overlap-resolved-by-trimming'
 
 
 def plan(tier, seed):
-    n, c = (16, 8) if tier == 'quick' else (64, 32)
+    n, c = (16, 6) if tier == 'quick' else (64, 32)
     return [{'name': 's%d' % i, 'kind': 'e2e', 'seed': seed, 'shard': i, 'cases': c} for i in range(n)]
 
 
